@@ -122,6 +122,8 @@ class FCFG(CFG):
         # Processed[i] contains all production rule that are currently working until i.
         processed = StateProcessed(len(word) + 1)
         gamma = Variable("Gamma")
+        while gamma in self.variables:
+            gamma = Variable(gamma.value + "'")
         dummy_rule = FeatureProduction(gamma, [self.start_symbol], FeatureStructure(), [FeatureStructure()])
         # State = (rule, [begin, end, dot position, diag)
         first_state = State(dummy_rule, (0, 0, 0), dummy_rule.features, ParseTree("BEGIN"))
